@@ -62,6 +62,8 @@ def std_case(item):
     old_handlers = {s: signal.getsignal(s) for s in (signal.SIGTERM, signal.SIGINT, signal.SIGALRM)}
 
     def check_state(ns, *a, **k):
+        if target == "fin":
+            return o_check(ns, *a, **k)
         if not state["started"] and ns.iteration == target - 1 and ns.live_points is not None:
             state["started"] = True
             state["pre"] = dict(live=ns.live_points.copy(), nested=[r.copy() for r in ns.nested_samples], iteration=ns.iteration)
@@ -72,7 +74,25 @@ def std_case(item):
             win.stop(extra_frames=[sys._getframe(1)])
         return o_check(ns, *a, **k)
 
+    o_fin = NS.finalise
+
+    def finalise(ns, *a, **k):
+        # window over the finalisation: from entry to NestedSampler.finalise until it returns
+        if target == "fin" and not state["started"]:
+            state["started"] = True
+            state["pre"] = dict(live=ns.live_points.copy(), nested=[r.copy() for r in ns.nested_samples], iteration=ns.iteration)
+            state["info"] = dict(phase="finalise", populated=bool(ns.proposal.populated))
+            win.start(extra_frames=[sys._getframe(1)])
+            try:
+                return o_fin(ns, *a, **k)
+            finally:
+                if not state["stopped"]:
+                    state["stopped"] = True
+                    win.stop(extra_frames=[sys._getframe(1)])
+        return o_fin(ns, *a, **k)
+
     NS.check_state = check_state
+    NS.finalise = finalise
     res = dict(errs=[], fired=None, events=None, info={})
     model = make("G2")
     exit_code = None
@@ -92,12 +112,14 @@ def std_case(item):
             win.stop()
     except Exception as e:
         NS.check_state = o_check
+        NS.finalise = o_fin
         for s, h in old_handlers.items():
             signal.signal(s, h)
         shutil.rmtree(out, ignore_errors=True)
         return dict(errs=[(f"harness:{type(e).__name__}", str(e)[:300])], fired=None, events=None, info={}, harness=True)
     finally:
         NS.check_state = o_check
+        NS.finalise = o_fin
     res["info"] = state["info"]
     if fire_at is None:
         res["events"] = win.events
@@ -147,7 +169,25 @@ def inspect_and_continue_std(out, kw, pre, res):
     nb = [r.tobytes() for r in nested]
     if len(set(nb)) != len(nb):
         errs.append(("discarded-point-recorded-twice", ""))
-    if live is None or len(live) != ns.nlive:
+    consumed = False
+    if live is None and res.get("info", {}).get("phase") == "finalise":
+        # inside NestedSampler.finalise the other consistent form is "every live point
+        # consumed": no live set, the discarded points are exactly the earlier ones plus
+        # each final live point once, and only the earlier ones have insertion indices
+        consumed = True
+        want = rows(pre["live"])
+        for r in pre["nested"]:
+            want[r.tobytes()] = want.get(r.tobytes(), 0) + 1
+        got = {}
+        for b in nb:
+            got[b] = got.get(b, 0) + 1
+        if got != want:
+            errs.append(("consumed-live-set-differs", f"{sum(got.values())} recorded vs {sum(want.values())} expected"))
+        if len(ns.insertion_indices) != len(pre["nested"]):
+            errs.append(("insertion-indices-count", f"{len(ns.insertion_indices)} vs {len(pre['nested'])} replaced"))
+        if ns.iteration != len(pre["nested"]):
+            errs.append(("iteration-differs-from-replaced-count", f"{ns.iteration} vs {len(pre['nested'])}"))
+    elif live is None or len(live) != ns.nlive:
         errs.append(("live-set-size", f"{None if live is None else len(live)}"))
     else:
         lb = [r.tobytes() for r in live]
@@ -157,9 +197,9 @@ def inspect_and_continue_std(out, kw, pre, res):
             errs.append(("point-both-live-and-discarded", f"{len(set(lb) & set(nb))} rows"))
         if np.any(np.diff(live["logL"]) < 0):
             errs.append(("live-set-not-ascending", ""))
-    if len(ns.insertion_indices) != len(nested):
+    if not consumed and len(ns.insertion_indices) != len(nested):
         errs.append(("insertion-indices-count", f"{len(ns.insertion_indices)} vs {len(nested)} discarded"))
-    if ns.iteration != len(nested):
+    if not consumed and ns.iteration != len(nested):
         errs.append(("iteration-differs-from-discarded-count", f"{ns.iteration} vs {len(nested)}"))
     # none lost: every point present before the signal is still present exactly once
     if live is not None and pre is not None:
@@ -187,6 +227,13 @@ def inspect_and_continue_std(out, kw, pre, res):
         errs.append((f"resumed-run-raises-{type(e).__name__}", str(e)[:300]))
         return
     errs += [(f"resumed:{c}", d) for c, d in mon.errs[:2]]
+    if consumed and pre is not None:
+        # nothing may be drawn or integrated again after the live set was consumed
+        n_want = len(pre["nested"]) + len(pre["live"])
+        if len(fs2.ns.nested_samples) != n_want:
+            errs.append(("resumed-run-changes-the-discarded-points", f"{len(fs2.ns.nested_samples)} vs {n_want}"))
+        if len(fs2.ns.state.logLs) - 1 != n_want:
+            errs.append(("resumed-run-changes-the-evidence-state", f"{len(fs2.ns.state.logLs) - 1} integrated vs {n_want}"))
     if not errs:
         runs.check_std_results(fs2, m2, errs)
 
@@ -305,7 +352,7 @@ def ins_case(item):
 
 def run(ctx):
     seed = ctx.seed
-    std_targets = [5, 21, 23] if ctx.quick else [1, 5, 20, 21, 22, 23, 30, 45]
+    std_targets = [5, 21, 23, "fin"] if ctx.quick else [1, 5, 20, 21, 22, 23, 30, 45, "fin"]
     ins_targets = [1] if ctx.quick else [0, 1, 2]
     # counting runs
     count_items = [("std", (seed, t, None, signal.SIGTERM, False)) for t in std_targets] + [("ins", (seed, t, None, signal.SIGTERM, False)) for t in ins_targets]
@@ -340,7 +387,7 @@ def run(ctx):
                 continue
             seen.add(c)
             chain = [f"{q}:{ln}" for q, ln, src in (res["fired"] or [])][:4]
-            ctx.violation(f"{kind}:inconsistent-after-signal@{site}", f"{c}: {d} | signal {int(item[3])} before line [{site}] (iteration {item[1]}, frames {chain})", {"kind": kind, "item": [int(x) if not isinstance(x, bool) and x is not None else x for x in item]})
+            ctx.violation(f"{kind}:inconsistent-after-signal@{site}", f"{c}: {d} | signal {int(item[3])} before line [{site}] (iteration {item[1]}, frames {chain})", {"kind": kind, "item": [x if isinstance(x, (bool, str)) or x is None else int(x) for x in item]})
             break
     ctx.set("distinct_nontrivial", len(site_classes))
     ctx.set("rule", "signal handler invoked before every line event of every nessai frame inside the chosen iterations (loop bodies de-duplicated to first/second/last occurrence of each (function, line)); thorough adds more iterations, opcode-level events in consume_sample / insert_live_point / _NSIntegralState.increment and SIGINT/SIGALRM on a sub-lattice. Distinct/non-trivial: distinct sampler-level statements (site keys) interrupted")
